@@ -133,7 +133,7 @@ func (e *Engine) globalConstInit(gl *ssa.Global, lay *Layout) map[int]string {
 func (e *Engine) onStore(g *Gen, x *ssa.Store, addr *Val) {}
 // Map model (option `mapmodel`): ONE local, non-escaping map with pointer keys and zero-size values per function is modelled
 // by ghost state the contract declares:  $mset PSet (key set), $msize Int (number of keys), and for the single `range` over
-// it  $mrem PSet (keys not yet visited), $mcnt Int (their number). Semantics assumed (Go specification, rule R3): a map holds
+// it  $mrem PSet (keys not yet visited), $mcnt Int (their number). Semantics assumed (Go specification, rule M1): a map holds
 // each key once; len is the number of keys; a range loop over a map that is not modified during the iteration visits every
 // key exactly once, in an unspecified order. The engine rejects the option when the map escapes (is stored, passed or
 // returned), when a second map is made, or when an update can execute after the range statement.
@@ -172,7 +172,7 @@ func (e *Engine) onMake(g *Gen, x ssa.Value, id string) {
 	g.use("prelude:ptrset")
 	g.ghost["$mset"] = "pset_empty"
 	g.ghost["$msize"] = "0"
-	g.assumedUsed["rule R3 (Go map semantics): a map holds each key once, len is the number of keys, a range over an unmodified map visits every key exactly once in an unspecified order"] = true
+	g.assumedUsed["rule M1 (Go map semantics): a map holds each key once, len is the number of keys, a range over an unmodified map visits every key exactly once in an unspecified order"] = true
 }
 func (e *Engine) onReturn(g *Gen, x *ssa.Return) {
 	if p, ok := g.ghost["$pending"]; ok && g.fn.Parent() == nil {
